@@ -55,6 +55,14 @@ func runOne(r *vlib.Run, driver string, c cfg, verbose string) (obs, string) {
 			r.Harness(fmt.Sprintf("driver %s under %s failed: %v\n%s", driver, c.name, err, tail(string(b))))
 		}
 	}
+	if i := strings.Index(string(b), "unrecovered panic in group"); i >= 0 {
+		// a driver group that aborts silently truncates what is compared
+		e := i + 600
+		if e > len(b) {
+			e = len(b)
+		}
+		r.Harness(fmt.Sprintf("driver %s under %s: %s", driver, c.name, string(b[i:e])))
+	}
 	var o obs
 	f, err := os.ReadFile(out)
 	if err != nil || json.Unmarshal(f, &o) != nil {
@@ -168,6 +176,7 @@ func main() {
 				bl = bl[:40]
 			}
 			vout := map[int]string{}
+			unstable := map[string]bool{}
 			for i := range cfgs {
 				if !need[i] {
 					continue
@@ -176,11 +185,28 @@ func main() {
 				vout[i] = out
 				for _, g := range groups {
 					if o2[g] != res[i][g] {
-						r.Harness(fmt.Sprintf("driver %s group %s under %s is not deterministic (digest changed between two runs)", d, g, cfgs[i].name))
+						// the group's observation stream is produced sequentially by the driver from fixed inputs: if two
+						// identical runs of one binary under one configuration disagree, what the library computed is
+						// not a function of its inputs (typically a kernel reading memory it was not given). A third
+						// run separates that from a one-off disturbance of the harness.
+						o3, _ := runOne(r, d, cfgs[i], "")
+						if o3[g] == o2[g] && o3[g] == res[i][g] {
+							continue
+						}
+						if o3[g] == o2[g] || o3[g] == res[i][g] {
+							// two of three agree: still two different results for the same input
+						}
+						unstable[g] = true
+						r.FailIn(dg, fmt.Sprintf("cfg/%s/%s/%s-not-a-function-of-the-input", d, g, cfgs[i].name), g+"/"+cfgs[i].name,
+							fmt.Sprintf("driver %s group %s: three identical runs under %s gave the digests %.12s / %.12s / %.12s", d, g, cfgs[i].name, res[i][g].Sha256, o2[g].Sha256, o3[g].Sha256),
+							map[string]any{"driver": d, "group": g, "config": cfgs[i].name})
 					}
 				}
 			}
 			for g, is := range bad {
+				if unstable[g] {
+					continue
+				}
 				for _, i := range is {
 					where := "not localised (more than 40 differing groups)"
 					if _, err := os.Stat(vout[0] + ".verbose." + vlib.Sanitize(g)); err == nil {
